@@ -187,7 +187,9 @@ int EGLPNUM_TYPENAME_ILLmps_next_field (
 	{
 		if (sscanf (state->p, "%s", state->field) == 1)
 		{
-			state->p += strlen (state->field) + 1;
+			state->p += strlen (state->field);
+			if (*state->p != '\0')
+				state->p++;							/* never step over the terminator (last line without newline) */
 			state->field_num++;
 			return 0;
 		}
